@@ -892,6 +892,12 @@
 #define SEXP_DEFAULT_EQUAL_BOUND 100000000
 #endif
 
+/* the most pairs of objects nested deeper than SEXP_DEFAULT_EQUAL_DEPTH */
+/* that equal? remembers to compare later, before it gives up */
+#ifndef SEXP_DEFAULT_EQUAL_DEFERRED
+#define SEXP_DEFAULT_EQUAL_DEFERRED 1000000
+#endif
+
 #ifndef SEXP_DEFAULT_WRITE_BOUND
 #define SEXP_DEFAULT_WRITE_BOUND 10000
 #endif
